@@ -98,7 +98,7 @@ def lex_text(text):
     for line in text.split("\n"):
         if not line.strip():
             continue
-        out.append({"ind": len(line) - len(line.lstrip(" ")), "first": "x", "w": line.split()})
+        out.append({"ind": len(line) - len(line.lstrip(" \t")), "first": "x", "w": line.split()})
     return out
 
 
@@ -110,7 +110,7 @@ def run(ctx):
     ctx.cov["rule"] = ("(vendor, tree): TLC-enumerated trees (depth<=2,width<=2) and seeded random trees to depth 5 in each vendor's well-formed domain, RouterOS "
                        "section trees, Cisco address-family sub-domain; non-trivial = distinct (vendor, tree) with nesting depth >= 2")
     ctx.assumptions += ["rows are 1-3 printable words free of the vendor's syntax delimiters; no row equal to / starting with the vendor's policy end markers",
-                        "default indent of each formatter"]
+                        "indentation unit: the formatter default, four blanks, a tab or one blank"]
     r = ctx.mc("mc/MC_Format.tla", "mc/MC_Format.cfg", workers=1)
     if r.violated:
         ctx.reject("mc", "Formatter model: %s" % r.violated, {"tlc": r.out[-2000:]}, None)
@@ -122,8 +122,9 @@ def run(ctx):
     recs = []
 
     def observe(tag, vendor, tj):
-        wide = len(recs) % 5 == 4
-        fmt = reg[vendor].make_formatter(indent="    ") if wide else reg[vendor].make_formatter()
+        # the indentation unit is an option of the entry point (`annet gen --indent`): default, four blanks, a tab, one blank
+        unit = {4: "    ", 3: "\t", 2: " "}.get(len(recs) % 7)
+        fmt = reg[vendor].make_formatter(indent=unit) if unit is not None else reg[vendor].make_formatter()
         t = cases.tree(tj)
         rec = {"id": "%s-%s-%d" % (tag, vendor, len(recs)), "vendor": vendor, "t": tj, "indent": vendor in INDENT_FAMILY}
         try:
